@@ -30,6 +30,8 @@ F = [
  fixed('C04', 'C04.2', 'overlap:empty-lines-exempt', '12f58d7', 'a line that reserves no bytes is reported as overlapping when it sits inside another line\'s range, although it occupies no address', '.org 0 / .byte 1,2,3,4 / .org 2 / .zerountil 1 / .org 4 / .byte 9', 'overlap error', '01 02 03 04 09'),
  fixed('C19', 'C19.3', 'require:unmatched-line-exits', 'ab5b401', 'a #require line the requirement pattern does not match (misspelt operator, missing quote) is silently ignored', '#require "other-lang => 2.0.0" with an ISA named differently', 'assembles, exit 0', 'rejected'),
  fixed('C18', 'C18.2', 'space:condition-operand:_lhs_expression:group1', '7d96373', 'the left operand of an #if / #elif comparison keeps the blanks its pattern absorbed, and operands naming labels are compared as text', '#define MODE fast / #if MODE  == fast (two blanks before ==)', 'false branch taken', 'same as with one blank'),
+ fixed('C13', 'C13.8', 'whole-operand:EnumerationOperand', '9af33bf', 'an enumeration operand matches a key followed by arbitrary text (the pattern was not anchored at the end)', 'set fast!garbage / set fast + 3 (enumeration keys slow, fast)', 'assembled as `set fast`', 'rejected: no variant accepts the statement'),
+ fixed('C13', 'C13.8', 'whole-operand:RelativeAddressOperand', '9af33bf', 'a relative-address operand matches an expression followed by arbitrary text (only the matched prefix was used)', 'jr t ! junk', 'assembled as `jr t`', 'rejected'),
  fixed('C12', 'C12.3', 'width:upper', 'f5cdb79', 'overflow gate at byte, not bit, granularity', 't3 200 (3-bit field)', 'accepted', 'rejected'),
  fixed('C13', 'C13.5', 'register-guard:NumericEnumerationOperand', 'e15cca4', 'numeric enumeration operand accepts register names', 'set {numeric_enumeration, register a}: en a', 'error', 'register form'),
  fixed('C14', 'C14.1', 'loop:assembler.engine.Assembler.assemble_bytecode:addr <= (max_generated_address if self._binary_end', 'd576ef1', 'image loop stalls on a zero-length line', '.byte 1 / .fill 0, 0', 'hang', 'terminates'),
